@@ -227,13 +227,30 @@ type Prim struct {
 	Auth    common.Address // the frame's authorized account
 	Sponsor common.Address // evm.Origin
 	Reached bool           // valueExt == 0, an account is authorized and the nonce operand is its nonce: evm.AuthCall is entered
+	// 'w': contract code wrote the balance slot of A in the bound token contract's storage (SSTORE): Old -> V
+	Old *big.Int
 }
 
 type RecDB struct {
 	*account.AccountDB
 	Prims  []Prim
 	Origin common.Address
-	open   []int // indices of 'o' prims whose opcode has not returned yet
+	Slots  map[common.Hash]common.Address // balance slot of the bound token contract -> owner, for the known addresses
+	open   []int                          // indices of 'o' prims whose opcode has not returned yet
+}
+
+// LedgerAddrs: the addresses whose balance slots the recorder recognises when contract code writes them.
+var LedgerAddrs []common.Address
+
+// SetState: an SSTORE. Writes into balance slots of the bound token contract are ledger movements made by contract code.
+func (r *RecDB) SetState(a common.Address, key, value common.Hash) {
+	if a == TokenContract {
+		if owner, ok := r.Slots[key]; ok {
+			old := new(big.Int).SetBytes(r.AccountDB.GetState(a, key).Bytes())
+			r.Prims = append(r.Prims, Prim{Kind: 'w', A: owner, V: new(big.Int).SetBytes(value.Bytes()), Old: old})
+		}
+	}
+	r.AccountDB.SetState(a, key, value)
 }
 
 func (r *RecDB) SubBalance(a common.Address, v *big.Int) *big.Int {
@@ -339,6 +356,20 @@ func ParseTrace(ps []Prim) ([]Ev, bool) {
 			notMoved()
 		}
 		switch p.Kind {
+		case 'w':
+			d := new(big.Int).Sub(p.V, p.Old)
+			switch {
+			case d.Sign() < 0:
+				d.Neg(d)
+				if i+1 < len(ps) && ps[i+1].Kind == 'w' && new(big.Int).Sub(ps[i+1].V, ps[i+1].Old).Cmp(d) == 0 {
+					out = append(out, Ev{Kind: "TV", A: p.A, B: ps[i+1].A, V: d}) // the token code moved d from A to B
+					i++
+				} else {
+					out = append(out, Ev{Kind: "TB", A: p.A, V: d}) // the token code destroyed d of A
+				}
+			case d.Sign() > 0:
+				out = append(out, Ev{Kind: "TM", B: p.A, V: d}) // the token code created d for B
+			}
 		case 'o':
 			if p.Res == nil {
 				return out, false
@@ -452,7 +483,10 @@ func ExtractContract(adb *account.AccountDB, tx *types.Transaction, header *type
 	vmCtx.Difficulty = new(big.Int).SetUint64(123)
 	vmCtx.GasPrice = big.NewInt(1000000000)
 	vmCtx.GasLimit = gasLimit - intrinsic
-	rec := &RecDB{AccountDB: adb, Origin: vmCtx.Origin}
+	rec := &RecDB{AccountDB: adb, Origin: vmCtx.Origin, Slots: map[common.Hash]common.Address{}}
+	for _, x := range LedgerAddrs {
+		rec.Slots[common.BytesToHash(adb.GetERC20Key(x, 3))] = x
+	}
 	evm := vm.NewEVMWithNFT(vmCtx, rec, adb)
 	if !vm.VerifC06Instrument(evm, []vm.OpCode{vm.STAKE, vm.UNSTAKE, vm.UNSTAKEALL, vm.AUTHCALL}, rec.RecordOp) {
 		panic("nodehx: evm not instrumentable")
